@@ -129,6 +129,65 @@ def impl_sw(case):
     return trace, strtyped, one
 
 
+class _ChunkStream(object):
+    """a byte stream that delivers the given chunks one per read() call, then b''"""
+    def __init__(self, chunks):
+        self.c = list(chunks)
+
+    def read(self, size=-1):
+        return self.c.pop(0) if self.c else b""
+
+
+def impl_sr(case):
+    """codecs.getreader('css')(stream).read() -> (result of every decode() call, read() result, one-shot decode)"""
+    import css_parser.codec  # noqa: F401
+    kw = kw_of(case)
+    chunks = [c for c in chunks_of(case) if c]
+    trace = []
+    try:
+        r = codecs.getreader("css")(_ChunkStream(chunks), **kw)
+        orig = r.decode
+
+        def dec(data, errors="strict"):
+            try:
+                out = orig(data, errors)
+            except Exception as e:  # noqa
+                trace.append(["ERR", exc_enum(e)])
+                raise
+            trace.append(["OK", cps(out[0])])
+            return out
+        r.decode = dec
+        res = ["OK", cps(r.read())]
+    except Exception as e:  # noqa
+        res = ["ERR", exc_enum(e)]
+    try:
+        one = ["OK", cps(codecs.getdecoder("css")(b"".join(chunks), **kw)[0])]
+    except Exception as e:  # noqa
+        one = ["ERR", exc_enum(e)]
+    return trace, res, one
+
+
+def strip_trace(tr):
+    tr = [norm_res(x) for x in tr]
+    while tr and tr[-1] == ["OK", []]:
+        tr.pop()
+    return tr
+
+
+def sr_oracle(case, trace, res, one):
+    """what does hold for the StreamReader: the text read is a prefix of the one-shot text"""
+    out = []
+    if res[0] == "OK" and one[0] == "OK":
+        a, b = res[1].split(), one[1].split()
+        if b[:len(a)] != a:
+            out.append(("StreamReader.read() returned text that is not a prefix of the one-shot text", "css"))
+    elif res[0] == "ERR" and one[0] == "OK":
+        tag = cause_tag(case, b"".join(c for c in chunks_of(case)))
+        if not tag.startswith("cpython-codec-inconsistent"):
+            out.append(("StreamReader raises %s where the one-shot decoder returns text" % res[1], tag))
+    return out
+
+
 def undecided_text(text):
     """the @charset header of `text` cannot be decided without knowing that the text ends here"""
     return '@charset "'.startswith(text) or (text.startswith('@charset "') and '"' not in text[10:])
@@ -644,6 +703,61 @@ def run(ctx):
         if d:
             ctx.violation(d, {"k": "I", "text": t, "enc": e}, sig_text="inverse " + json.dumps(e))
 
+    # --- the divergent set (theorems incdec_chunking_full / incdec_chunking_refuted_on_divergent): on the implementation
+    #     chunked != one-shot may only happen inside it, and inside it already the single chunk differs
+    n_div = 0
+    if binary:
+        didx = [i for i in idx if cases[i]["k"] == "D"]
+        vout = ctx.run_binary(binary, ["V" + model_line(cases[i])[1:].rsplit("|", 1)[0] + "|" +
+                                       cps(b"".join(chunks_of(cases[i]))) for i in didx], shards=6)
+        bad_delim = []
+        for i, v in zip(didx, vout):
+            one, inc, _typ, _t = impl[i]
+            div = v.strip() == "1"
+            n_div += div
+            if one != inc and not div:
+                bad_delim.append((cases[i], "chunked != one-shot outside the divergent set"))
+            if div and len(cases[i]["chunks"]) == 1 and one == inc:
+                bad_delim.append((cases[i], "inside the divergent set but the single chunk agrees with one-shot"))
+        if bad_delim:
+            ctx.broken("correspondence", "CodecBom.divergent_input delimits the chunked/one-shot disagreements",
+                       "%d cases; first: %s" % (len(bad_delim), json.dumps(bad_delim[:2])[:1500]))
+
+    # --- StreamReader: model (Codec.sr_step, theorems streamreader_*) per decode call, and the prefix oracle
+    rcases = []
+    for bb in dec_inputs():
+        if len(bb) > 40:
+            continue
+        for enc, force in ((None, True), ("utf-8", True), ("latin-1", False), ("utf-16", True), ("utf-8-sig", True), ("x", True)):
+            if enc is not None and ctx.rng.random() < 0.6:
+                continue
+            n = len(bb)
+            plist = [()] + [(i,) for i in range(1, n)] + [tuple(range(1, n))] + \
+                [tuple(sorted(set(ctx.rng.randint(1, max(1, n - 1)) for _ in range(2)))) for _ in range(3 if n > 2 else 0)]
+            for pt in plist:
+                ch = [c for c in split(bb, pt) if c]
+                rcases.append({"k": "D", "enc": enc, "force": force, "chunks": [c.hex() for c in ch]})
+    rimpl = ctx.pool_map(impl_sr, rcases, procs=6, chunksize=512)
+    sr_compared = 0
+    if binary:
+        qidx = [i for i, c in enumerate(rcases) if model_scope(c)]
+        qout = ctx.run_binary(binary, ["Q" + model_line(rcases[i])[1:] if rcases[i]["chunks"] else
+                                       "Q|%s|%d|" % ("-" if rcases[i]["enc"] is None else cps(rcases[i]["enc"]),
+                                                     1 if rcases[i]["force"] else 0) for i in qidx], shards=6)
+        qm = []
+        for i, o in zip(qidx, qout):
+            mt = strip_trace(model_trace(o))
+            tr, res, _one = rimpl[i]
+            if mt != strip_trace(tr) or collapse(model_trace(o)) != norm_res(res):
+                qm.append((rcases[i], {"impl": [tr, res], "model": o}))
+        sr_compared = len(qidx)
+        if qm:
+            ctx.broken("correspondence", "StreamReader.decode under codecs.StreamReader.read vs CssV.Codec.sr_trace",
+                       "%d of %d cases differ; first: %s" % (len(qm), len(qidx), json.dumps(qm[:2])[:1500]))
+    for c, (tr, res, one) in zip(rcases, rimpl):
+        for d, tag in sr_oracle(c, tr, res, one):
+            ctx.violation(d, c, sig_text=tag + " " + json.dumps({"enc": c.get("enc"), "force": c.get("force", True)}))
+
     # --- StreamWriter: model (enc_step with final=False, theorems streamwriter_*) and oracle (content == one-shot encode)
     wcases = []
     for tx in enc_inputs():
@@ -713,11 +827,14 @@ def run(ctx):
         return hunt(ctx, 300 if thorough else 60)
 
     ctx.finish({
-        "evaluations": len(cases) + len(fcases) + len(inv_cases) + len(hyp_cases) + len(wcases),
+        "evaluations": len(cases) + len(fcases) + len(inv_cases) + len(hyp_cases) + len(wcases) + len(rcases),
         "class_cases": len(cases), "function_cases": len(fcases), "inverse_cases": len(inv_cases),
         "codec_hypothesis_cases": len(hyp_cases),
         "model_compared": compared, "outside_model_codec_table": skipped_names,
-        "closed_instance_compared": r_compared, "streamwriter_cases": len(wcases), "streamwriter_model_compared": w_compared,
+        "closed_instance_compared": r_compared, "divergent_set_cases": n_div,
+        "streamreader_cases": len(rcases), "streamreader_model_compared": sr_compared,
+        "outside_model_scope_reasons": scope_reasons(cases),
+        "streamwriter_cases": len(wcases), "streamwriter_model_compared": w_compared,
         "distinct_nontrivial": len(nontrivial),
         "rule": "structured part (%d cases): byte strings / texts with complete, truncated, mis-named @charset rules x 10 "
                 "encodings x BOMs x raw BOM/charset prefixes and malformed sequences x encoding/force arguments x ALL cut points "
@@ -760,6 +877,39 @@ def model_scope(c):
         if m:
             names.append(m.group(1))
     return all(same_codec_knowledge(n) for n in names) and not (c.get("enc") is not None and is_css_name(c["enc"]))
+
+
+def scope_reasons(cases):
+    """why a case is outside the model's codec table (counts)"""
+    out = {}
+    for c in cases:
+        if model_scope(c):
+            continue
+        why = "errors argument" if c.get("errors", "strict") != "strict" else None
+        if why is None and c.get("enc") is not None and is_css_name(c["enc"]):
+            why = "explicit encoding argument is a spelling of css"
+        if why is None:
+            names = [c.get("enc")]
+            if c["k"] == "D":
+                whole = b"".join(chunks_of(c))
+                names.append(ref_detect_bytes(whole)[0])
+                m = RULE.match(whole.decode("latin-1"))
+                if m:
+                    names.append(m.group(1))
+            else:
+                m = RULE.match("".join(c["chunks"]))
+                if m:
+                    names.append(m.group(1))
+            for n in names:
+                if n is None or same_codec_knowledge(n):
+                    continue
+                if not all(32 <= ord(ch) < 127 for ch in n):
+                    why = "encoding name with a character outside printable ASCII (codecs.lookup raises UnicodeError/ValueError)"
+                else:
+                    why = "encoding name CPython knows but the Gallina table does not (or differently): %s" % (python_knows(n),)
+                break
+        out[why or "?"] = out.get(why or "?", 0) + 1
+    return out
 
 
 R_NAMES = {"utf-8", "utf-16-le", "utf-16-be", "utf-32-le", "utf-32-be", "latin-1", "ascii"}
